@@ -1,6 +1,8 @@
 //! seqx — bounded-exhaustive in-process enumerators against s4lib (engine E-SEQ).
+mod c02;
 mod c16;
 mod out;
+mod text;
 
 fn main() {
     let args: Vec<String> = std::env::args().collect();
@@ -27,6 +29,14 @@ fn main() {
             c16::run(&tier)
         }
         "c16-long" => c16::run_long(),
+        "c02-corpus" => c02::corpus(args.get(2).expect("dir"), &tier),
+        "c02" | "c12" => {
+            if let Some(r) = replay {
+                let v: serde_json::Value = serde_json::from_str(&std::fs::read_to_string(&r).unwrap()).unwrap();
+                std::process::exit(if c02::replay(sub, &v) { 0 } else { 1 });
+            }
+            c02::run(sub, &tier)
+        }
         _ => {
             eprintln!("usage: seqx <c16|...> [--tier quick|thorough] [--replay FILE]");
             std::process::exit(2);
